@@ -66,6 +66,35 @@ def _kw(r, kind, name, flags=True):
     return enc(kw)
 
 
+def _same_width(v):
+    """another number whose repr has the same length (so that the two saved files have the same size)"""
+    if isinstance(v, bool) or not isinstance(v, (int, float)):
+        return v
+    s = repr(v)
+    for i, ch in enumerate(s):
+        if ch in "123456789":
+            t = s[:i] + ("7" if ch != "7" else "3") + s[i + 1:]
+            try:
+                w = type(v)(t)
+            except ValueError:
+                return v
+            return w if len(repr(w)) == len(s) else v
+    return v
+
+
+def value_twin(rec):
+    """the same drawing with other values of the same printed width in its first and its last valued element: a
+    file that is partly the one and partly the other is well formed and describes a circuit nobody saved"""
+    import copy
+    tw = copy.deepcopy(rec)
+    valued = [e for e in tw["elems"] if any(k in e.get("kw", {}) for k in ("V", "I", "R", "G", "C", "L"))]
+    for e in ([valued[0], valued[-1]] if len(valued) > 1 else valued):
+        for k in ("V", "I", "R", "G", "C", "L"):
+            if k in e["kw"]:
+                e["kw"][k] = _same_width(e["kw"][k])
+    return tw
+
+
 def gen_chain_drawing(r, flags=True):
     """a loop drawn purely cursor-style (every element starts where the previous one ended, no coordinates in
     the user parameters), optionally with a second mesh; returns (recipe, sibling) where the sibling is the same
@@ -316,6 +345,12 @@ def plan(seed, overrides=None):
         recipes[f"decl{n}"] = recipes["decl0"]
         recipes[f"decl{n + 1}"] = recipes["decl0"]
         cfg["n_drawings"] = n + 2
+    if S("vtwin").random() < 0.5:
+        n = cfg["n_drawings"]
+        recipes[f"dr{n}"] = value_twin(recipes["dr0"])
+        recipes[f"decl{n}"] = recipes["decl0"]
+        cfg["vtwin"] = ["dr0", f"dr{n}"]
+        cfg["n_drawings"] = n + 1
     world = {"cfg": cfg, "recipes": recipes}
     counter = [0]
     scripts = [_script(S("client", c), c, world, counter) for c in range(cfg["clients"])]
@@ -351,7 +386,7 @@ def _place_faults_c15(r, steps, cfg):
             s["fault"] = gen_io_fault(r, s["op"] == "sc.dump")
             # schematic files are large: spread the failure offsets over the whole file
             if "at" in s["fault"]:
-                s["fault"]["at"] = r.choice([0, 1, 17, 200, 3000, 9000, 20000])
+                s["fault"]["at"] = r.choice([0, 1, 17, 200, 3000, 9000, 20000]) if r.random() < 0.5 else r.randint(20, 1500)
             continue
         free = [s for s in cands if "fault" not in s and s["op"] in ("sc.dump", "sc.load", "sc.serialize", "sc.deserialize", "sc.create")]
         if not free:
@@ -396,10 +431,16 @@ def _script(r, client, world, counter):
             # one path, two different drawings: the second dump replaces an acknowledged file (the place where an
             # I/O fault has something to destroy or to resurrect), then the path is loaded
             d2 = P(f"dr{r.randrange(nd)}")
+            if cfg.get("vtwin") and r.random() < 0.75:
+                a, b = cfg["vtwin"] if r.random() < 0.5 else cfg["vtwin"][::-1]
+                d, d2 = P(a), P(b)
             add("sc.dump", {"path": path, "d": d})
             if r.random() < 0.4:
                 add("sc.load", {"path": path})
             add("sc.dump", {"path": path, "d": d2})
+            if cfg["fault_mode"] in ("io", "mixed") and r.random() < 0.5:
+                # the save that replaces an acknowledged file fails somewhere inside the part that carries the values
+                out[-1]["fault"] = {"kind": r.choice(["enospc", "write-eio"]), "at": r.randint(60, 600), "once": r.random() < 0.3}
             cur = add("sc.load", {"path": path})
             if r.random() < 0.4:
                 t = add("sc.serialize", {"d": cur, "fmt": "json"})
